@@ -2314,9 +2314,13 @@ def fast_nonMarkov_SIR(G, trans_time_fxn=None,
     status = defaultdict(lambda: 'S') #node status defaults to 'S'
     rec_time = defaultdict(lambda: tmin-1) #node recovery time defaults to -1
     if initial_recovereds is not None:
+        initial_recovereds = list(initial_recovereds)
         for node in initial_recovereds:
             status[node] = 'R'
             rec_time[node] = tmin-1 #default value for these.  Ensures that the recovered nodes appear with a time
+    else:
+        initial_recovereds = []
+    initial_R_count = len(set(initial_recovereds))
     pred_inf_time = defaultdict(lambda: float('Inf')) 
         #infection time defaults to \infty  --- this could be set to tmax, 
         #probably with a slight improvement to performance.
@@ -2333,7 +2337,7 @@ def fast_nonMarkov_SIR(G, trans_time_fxn=None,
         initial_infecteds=[initial_infecteds]
     #else it is assumed to be a list of nodes.
         
-    times, S, I, R= ([tmin], [G.order()], [0], [0])  
+    times, S, I, R= ([tmin], [G.order()-initial_R_count], [0], [initial_R_count])  
     transmissions = []
     
     for u in initial_infecteds:
